@@ -224,7 +224,8 @@ def exec_of(idx, line):
     return cur
 
 
-def judge(chk, trace, idx, cfgs, bdir, kind):
+def judge(chk, trace, idx, cfgs, bdir, kind, rules=None):
+    rules = rules or RULES
     v = seq.validate_trace(trace, bdir, heap="6g")
     hits = 0
     done = set()
@@ -234,7 +235,7 @@ def judge(chk, trace, idx, cfgs, bdir, kind):
         if rule in IGNORED_RULES:
             chk.add("hangs_with_legitimately_blocked_writer", 1)
             continue
-        if rule not in RULES:
+        if rule not in rules:
             chk.notes.append("refusal by a rule of another property: %s" % rule)
             continue
         e = exec_of(idx, line)
@@ -265,13 +266,39 @@ def replay_script(prop, path):
     v = seq.validate_trace(out, bdir)
     for l in open(out):
         log("  " + l.rstrip()[:300])
-    hits = [b for b in v["bad"] if b[0] in RULES]
+    hits = [b for b in v["bad"] if b[0] in (RULES if prop == "C03" else seq.RULES[prop])]
     if hits:
         log("VIOLATION property=%s replay=%s" % (prop, path))
         log("  refused: %s" % hits)
         return 1
     log("replay accepted by ChannelObs")
     return 0
+
+
+def concurrent_family(chk, prop, bdir, n, rng):
+    """For C01 / C02 (called by chk_channel.py): real writer and reader threads under the deterministic scheduler - states only
+    a sleeping and re-awakened writer reaches (its wait loop re-evaluates the placement after readers have moved) - judged by
+    ChannelObs with that property's rules."""
+    sub = os.path.join(bdir, "conc")
+    exe = build_conc(sub)
+    cfgs, traces = [], []
+    for i in range(n):
+        out = os.path.join(sub, "k_%d.ndjson" % i)
+        p = os.path.join(sub, "k_%d.cfg" % i)
+        open(p, "w").write(random_config(rng, i, out))
+        cfgs.append(p); traces.append(out)
+    res = run_many(exe, cfgs)
+    broken = [(c, rc, o) for c, (rc, o) in zip(cfgs, res) if rc != 0]
+    if broken:
+        crash_or_broken(broken[0][1], broken[0][2], "chan_conc", "chan_conc on " + open(broken[0][0]).read().replace("\n", "; ")[:400])
+    allp = os.path.join(sub, "conc_all.ndjson")
+    idx = concat(traces, allp)
+    v = judge(chk, allp, idx, cfgs, sub, "concurrent (vsched)", rules=seq.RULES[prop])
+    chk.cov["concurrent_family"] = {"runs": n, "events": v["consumed"]}
+    for f in traces + cfgs + [allp]:
+        try: os.remove(f)
+        except OSError: pass
+    return v["consumed"]
 
 
 def main(prop, tier):
